@@ -76,4 +76,20 @@ PROPS = {
         "assumptions": ["shares are evaluated on the manager's view of the pass (a master whose state could not be read counts as a replica of its zone)"],
         "theorem_status": {"all": "full over oracle semantics, for every order and every value of the per-pass counters; the at-most-one-per-interval clause for broken replicas is decided by the monitor across passes"},
     },
+    "C10": {
+        "corr": ["Corr/C10.vo"],
+        "harness": [{"pkg": APP, "test": "TestVerifC10"}],
+        "trusted": ["fake MySQL/DCS (verifkit); Go map iteration order of repairCluster reconstructed from host-specific calls with candidate orders; replication-repair state (attempt counters, cooldown) is handed to the model as a map and compared after every pass",
+                    "perform_change_master(h,h) panics in the code (nil deref after an unreadable status) and in the model: the run is compared by its panicked flag (finding F5, see C20)"],
+        "assumptions": ["cluster state of the pass is what getClusterStateFromDB returned (compared field by field)"],
+        "theorem_status": {"C10_replica_repair_footprint / reset guards": "full over oracle semantics (every response of every call, hence every crash prefix)",
+                           "convergence within three fault-free iterations": "partial: decided by the implementation-side monitor on the fake servers for every generated start state, not a Coq theorem (needs a MySQL world model)"},
+    },
+    "C16": {
+        "corr": ["Corr/C10.vo"],
+        "harness": [{"pkg": APP, "test": "TestVerifC16"}],
+        "trusted": ["fake MySQL/DCS (verifkit); K1 table of the real findBestStreamFrom over generated topologies (exhaustive over 103,680 small configurations in the thorough tier)"],
+        "assumptions": ["the manager's view (cluster state, cascade topology) is the input; 'healthy' = reachable, not offline, and master or replicating with lag below stream_from_reasonable_lag"],
+        "theorem_status": {"all": "full: termination on every topology (fuel-independence), never self, configured-if-healthy, master-if-unconfigured, purity; the cascade repair footprint for every response. 'never counted towards quorum' is C04/C12's calc_active_nodes filter (cascade replicas are excluded from the HA host set) and is checked here by the monitor"},
+    },
 }
